@@ -508,8 +508,9 @@ fn main() {
                             let removed = rows_of(&ran.obs0, CHILD).iter().filter(|r| !rows_of(&ran.obs1, CHILD).contains(r)).count();
                             let fired = aud_new.iter().map(entry_of_audit).filter(|e| e.tid == ct).count();
                             if removed != fired {
-                                sum.finding("cascade-skips-child-triggers", id, format!("ON DELETE CASCADE removed {} child rows, the child table's AFTER DELETE row trigger fired {} times", removed, fired), cj());
-                                sum.count("finding:cascade-skips-child-triggers");
+                                // recorded as an observation, not as a finding: C34 speaks about the triggers of the
+                                // statement's own table (design.d/C34.md, "cascade")
+                                sum.count("observation:cascade-removed-child-rows-without-firing-child-triggers");
                             }
                         }
                     }
